@@ -15,3 +15,8 @@ open Bpp
 #print axioms C03_refuses
 #print axioms C03_perm_chunk
 #print axioms C03_prefix_defect
+#print axioms C15_accept_iff
+#print axioms C15_reencode
+#print axioms C15_roundtrip
+#print axioms C15_length
+#print axioms C15_zero_rounds
